@@ -1,6 +1,7 @@
 package astisub
 
 import (
+	"errors"
 	"encoding/xml"
 	"fmt"
 	"io"
@@ -387,6 +388,12 @@ func ReadFromTTML(i io.Reader) (o *Subtitles, err error) {
 
 	// Loop through subtitles
 	for _, ts := range ttml.Subtitles {
+		// Begin and end are mandatory
+		if ts.Begin == nil || ts.End == nil {
+			err = errors.New("astisub: subtitle has no begin or no end")
+			return
+		}
+
 		// Init item
 		ts.Begin.framerate = ttml.Framerate
 		ts.Begin.tickrate = ttml.Tickrate
